@@ -809,6 +809,9 @@ impl<'a> Lifter<'a> {
                 if let Some(obs) = self.observe.clone() {
                     if pat == obs {
                         // L17: observable — the value of this binding is the result
+                        if self.ret_ty.starts_with("Result<") {
+                            return Ok(v(format!("{{ let {pat} = {}; Ok::<{ty}, LErr>({pat}) }}", x.text), &format!("Result<{ty}, LErr>")));
+                        }
                         return Ok(v(format!("{{ let {pat} = {}; {pat} }}", x.text), &ty));
                     }
                 }
@@ -1538,7 +1541,7 @@ pub fn lift_fn(ctx: &mut Ctx, blk: &Block) -> Result<(String, Value), String> {
     if !matches!(f.sig.output, syn::ReturnType::Default) {
         out_param = None;
     }
-    let mut outputs: Vec<(String, Option<String>)> = vec![(name.clone(), None)];
+    let mut outputs: Vec<(String, Option<String>)> = if blk.flag("observe_only") { vec![] } else { vec![(name.clone(), None)] };
     if let Some(obs) = blk.opt("observe") {
         for o in obs.split(',') {
             outputs.push((format!("{name}__{o}"), Some(o.to_string())));
